@@ -40,6 +40,11 @@ func scenarioC08(r *Run) {
 			w.causes = append(w.causes, stopCause{Kind: "error", Begin: w.seq(), End: -1})
 		case fRecvDataEOF:
 			w.causes = append(w.causes, stopCause{Kind: "closed", Begin: w.seq(), End: -1})
+		case fSendErrLost, fSendErrAfter:
+			// a failed Send is a channel failure too; whether it ends the server
+			// (with that error) is the implementation's choice
+			w.causes = append(w.causes, stopCause{Kind: "error", Begin: w.seq(), End: -1, Optional: true})
+			return
 		default:
 			return
 		}
@@ -131,7 +136,7 @@ func (w *srvWorld) checkC08(active0 string) {
 	}
 	must := ""
 	for _, a := range w.causes {
-		if a.End < 0 {
+		if a.End < 0 || a.Optional {
 			continue
 		}
 		first := true
@@ -150,7 +155,7 @@ func (w *srvWorld) checkC08(active0 string) {
 	}
 	// call handlers still polling after the stop has taken effect see a cancelled context
 	stopQ := -1
-	if fc := w.firstCause(); fc < 1<<30 {
+	if fc := w.firstDefiniteCause(); fc < 1<<30 {
 		for _, q := range w.qpoints {
 			if q > fc {
 				stopQ = q
@@ -165,7 +170,7 @@ func (w *srvWorld) checkC08(active0 string) {
 			}
 			for _, ob := range m.CtxObs {
 				if stopQ >= 0 && ob.Seq > stopQ && ob.Err == "" {
-					r.Fail("in-flight-ctx-not-cancelled", "call handler %s polled its context at #%d, after the server had stopped (cause at #%d, quiescent at #%d), and it was not cancelled", m.Tag, ob.Seq, w.firstCause(), stopQ)
+					r.Fail("in-flight-ctx-not-cancelled", "call handler %s polled its context at #%d, after the server had stopped (cause at #%d, quiescent at #%d), and it was not cancelled", m.Tag, ob.Seq, w.firstDefiniteCause(), stopQ)
 					return
 				}
 			}
